@@ -261,6 +261,9 @@ AddCheck(a, tk) ==
 \* second section: factory.Create happened in between (cf = it failed);
 \* snapshot n on every attached replica and on the newcomer, newcomer WO.
 \* S = replicas whose snapshot call fails
+\* S: the fault points of this add -- the addresses whose snapshot call fails, and the token
+\* ModeFail when the joiner's setreplicamode(WO) fails
+ModeFail == "modefail"
 AddCommit(a, cf, tk, n, S) ==
     /\ Called("AddCommit", [a |-> a, cf |-> cf, tk |-> tk, name |-> n, S |-> S])
     /\ served' = "" /\ sig' = <<>>
@@ -292,7 +295,16 @@ AddCommit(a, cf, tk, n, S) ==
                 LET took == (Ws \cup {a}) \ S       \* replicas that took the snapshot
                     sn  == [x \in Addr |-> IF x \in took /\ (snapOK \/ x \in Ws \ S)
                                            THEN Append(rsnaps[x], n) ELSE rsnaps[x]]
-                IN IF ~snapOK THEN
+                IN IF snapOK /\ ModeFail \in S THEN
+                        \* the joiner took the snapshot but refuses the switch to WO: the add fails
+                        \* after the snapshot, nothing is attached (and the joiner stays open)
+                        /\ res' = "refused"
+                        /\ cmode' = cm0 /\ RemoveBook(D)
+                        /\ rsnaps' = sn
+                        /\ IF D # {} THEN Settle(cm0, rsnaps', {})
+                           ELSE UNCHANGED <<readOnly, rwCount, checkpoint, rcp>>
+                        /\ UNCHANGED <<rmode, rrev, rreb, rlog, rsnapAt, acked, nextW, calls>>
+                   ELSE IF ~snapOK THEN
                         \* a failed snapshot aborts the add (nobody is marked)
                         /\ res' = "refused"
                         /\ cmode' = cm0 /\ RemoveBook(D)
